@@ -149,6 +149,11 @@ pub fn execute_specs(specs: &[Spec], prop: &str, thorough: bool) -> (Vec<Violati
     (agg.violations, out)
 }
 
+/// census runs are single calls on symbols of at most a few chambers
+pub fn census_budget_secs() -> u64 {
+    run_budget_secs().min(10)
+}
+
 pub fn run_budget_secs() -> u64 {
     std::env::var("VERIF_RUN_BUDGET_S").ok().and_then(|s| s.parse().ok()).unwrap_or(30)
 }
@@ -206,6 +211,7 @@ struct Driver {
     timeouts: usize,
     hit_deadline: bool,
     plan_size: usize,
+    in_census: bool,
 }
 
 impl Driver {
@@ -213,7 +219,7 @@ impl Driver {
         PoolConfig {
             workers: self.args.workers,
             chunk: 8,
-            run_budget: Duration::from_secs(run_budget_secs()),
+            run_budget: Duration::from_secs(if self.in_census { census_budget_secs() } else { run_budget_secs() }),
             deadline: Some(self.t0 + self.args.wall_cap),
             thorough: self.args.tier == Tier::Thorough,
         }
@@ -232,6 +238,8 @@ impl Driver {
             let known_hits = &mut self.known_hits;
             let unknown = &mut self.unknown;
             let kept_ref = &mut kept;
+            let mut hangs = 0usize;
+            let unjudged_hangs = &mut hangs;
             run_specs(specs, &cfg, move |pos, rec| {
                 let new = agg.absorb(&specs[pos], &rec, judge);
                 let mut go_on = true;
@@ -241,6 +249,13 @@ impl Driver {
                         *known_hits.entry(format!("{} {}", f.class, f.tiling)).or_insert(0) += 1;
                     } else {
                         unknown.push(v);
+                        go_on = false;
+                    }
+                }
+                if !judge && (rec.outcome == "timeout" || rec.outcome == "abort") {
+                    *unjudged_hangs += 1;
+                    if *unjudged_hangs >= 8 {
+                        // classification stage only: do not burn the wall budget on hangs
                         go_on = false;
                     }
                 }
@@ -291,6 +306,7 @@ pub fn check_cmd(args: CheckArgs) -> i32 {
         timeouts: 0,
         hit_deadline: false,
         plan_size: 0,
+        in_census: false,
     };
 
     // 1. regression replays: every listed finding (open or fixed) first
@@ -335,6 +351,7 @@ pub fn check_cmd(args: CheckArgs) -> i32 {
     // the census is a judged control configuration for C17 (fixed keys, no
     // perturbation); for C16 it only classifies inputs
     let judge_census = prop == "C17";
+    d.in_census = true;
     let census_recs = if judge_census {
         // need the records for classification as well: run unjudged copy of
         // the information through a side channel
@@ -342,6 +359,7 @@ pub fn check_cmd(args: CheckArgs) -> i32 {
     } else {
         d.run_stage(&census_specs, false)
     };
+    d.in_census = false;
     let census: Vec<Census> = census_recs
         .iter()
         .map(|r| match r {
@@ -459,18 +477,25 @@ fn minimise_and_write(d: &Driver, v: &Violation) -> PathBuf {
     let mut specs = original.clone();
     let class = v.class.clone();
     let mut schedule: Option<Spec> = None;
-    // first execution of the witnesses as they are (also the reference records)
-    let (_, first_recs) = execute_specs(&specs, &prop, thorough);
+    // reference records: those observed when the violation was found
+    let first_recs: Vec<Record> = v.records.clone();
+    let hangs = class == "timeout" || class == "abort";
+    if hangs {
+        // every candidate costs a full run budget: shrink only the cheap things
+        shr.deadline = Instant::now() + Duration::from_secs(run_budget_secs() * 2 + 5);
+    }
     if first_recs.len() == specs.len() {
         if specs.len() == 1 {
             let cl = class.clone();
             let pred = move |r: &Record| r.failures.iter().any(|(c, _)| *c == cl);
             let s = shr.shrink(&specs[0], &first_recs[0], &pred);
-            specs[0] = s;
-            let (_, recs) = execute_specs(&specs, &prop, thorough);
-            if let Some(r) = recs.first() {
-                schedule = shr.shrink_schedule(&specs[0], r, &pred);
+            if !hangs {
+                let (_, recs) = execute_specs(std::slice::from_ref(&s), &prop, thorough);
+                if let Some(r) = recs.first() {
+                    schedule = shr.shrink_schedule(&s, r, &pred);
+                }
             }
+            specs[0] = s;
         } else {
             // cross-run class: shrink each witness while it keeps its outcome key
             for k in 0..specs.len() {
